@@ -79,7 +79,7 @@ func TestVerifC05Crash(t *testing.T) {
 	if ev.Thorough() {
 		depth = 6
 	}
-	r.Rule(fmt.Sprintf("every history of length <=%d over {ADD(p), DEL(p), ADD(q), DEL(q), vanish(p);gc} (IPv4; dual stack one level shallower) through the real AllocIP/ReleaseIP/gcPods on the real pool with a real bolt-backed DiskStorage; a crash after EACH externally visible effect (cloud call effect, database commit, reply): durable state = bytes of the database file + cloud state at that moment, memory lost; every crash point is recovered with the real start-up path (NewDiskStorage -> load, filterENINotFound, NewLocal(...).Run(stored bindings) via Manager.Run) and probed: acknowledged ADDs still own the same address and have a record, acknowledged DELs have none, a fresh ADD never receives an acknowledged pod's address, pool ownership has a record", depth))
+	r.Rule(fmt.Sprintf("every history of length <=%d over {ADD(p), DEL(p), ADD(q), DEL(q), vanish(p);gc} (IPv4; dual stack one level shallower) through the real AllocIP/ReleaseIP/gcPods on the real pool with a real bolt-backed DiskStorage; a crash after EACH externally visible effect (cloud call effect, database commit, reply): durable state = bytes of the database file + cloud state at that moment, memory lost; every crash point is recovered - once under the same configuration, once with the per-interface capacity lowered to 1 - with the real start-up path (NewDiskStorage -> load, filterENINotFound, NewLocal(...).Run(stored bindings) via Manager.Run) and probed: acknowledged ADDs still own the same address and have a record, acknowledged DELs have none, a fresh ADD never receives an acknowledged pod's address, pool ownership has a record", depth))
 	dir := t.TempDir()
 	ops := []string{"add:p", "del:p", "add:q", "del:q", "vanishgc:p"}
 	var seqs [][]string
@@ -194,9 +194,21 @@ func TestVerifC05Crash(t *testing.T) {
 			r.Violate("history/"+strings.SplitN(v.Sig, "::", 2)[1], fmt.Sprintf("history %v: %s", seq, v.Detail), seq)
 		}
 		var labels []string
-		for ci, s := range snaps {
-			labels = append(labels, s.label)
-			s := s
+		for ci2 := 0; ci2 < 2*len(snaps); ci2++ {
+			// every crash point is recovered twice: with the configuration it ran under, and after the operator lowered the
+			// per-interface capacity to 1 (the "switch from multi-IP to one address per interface" restart of Local.load)
+			ci, lowerCap := ci2/2, ci2%2 == 1
+			s := snaps[ci]
+			if !lowerCap {
+				labels = append(labels, s.label)
+			}
+			s.cloud = s.cloud.Clone()
+			rcfg := cfg
+			variant := ""
+			if lowerCap {
+				rcfg.Cap = 1
+				variant = " [restart with per-interface capacity lowered to 1]"
+			}
 			rpath := filepath.Join(dir, fmt.Sprintf("r%d.db", si))
 			os.Remove(rpath)
 			if err := os.WriteFile(rpath, s.db, 0o600); err != nil {
@@ -204,7 +216,7 @@ func TestVerifC05Crash(t *testing.T) {
 			}
 			recoveries++
 			rr := vrt.RunOnce("recover", 20000, func(x *vrt.Exec) {
-				where := fmt.Sprintf("history %v, crash after effect #%d %q (effects so far %v)", seq, ci, s.label, labels)
+				where := fmt.Sprintf("history %v, crash after effect #%d %q (effects so far %v)%s", seq, ci, s.label, labels, variant)
 				db, err := c05OpenDB(rpath)
 				if err != nil {
 					x.Failf("C05/db-does-not-open-after-crash", "%s: %v", where, err)
@@ -216,7 +228,7 @@ func TestVerifC05Crash(t *testing.T) {
 					p := p
 					k.pods[id] = &p
 				}
-				w := newDW(x, cfg, db, s.cloud, k)
+				w := newDW(x, rcfg, db, s.cloud, k)
 				if x.Failed() {
 					return
 				}
